@@ -1,5 +1,6 @@
 import HdVerif.Proofs.TilingHelpers
 import HdVerif.Proofs.TilingHelpersTie
+import HdVerif.Proofs.TilingSlide
 /-! # C12  All tiling helpers describe one and the same tiling
 
 Property theorems only (helper lemmas: `Proofs/TilingGrid.lean`, `Proofs/TilingCut.lean`, `Proofs/TilingFull.lean`,
@@ -276,6 +277,69 @@ theorem bridge_tile_index_enumeration (R C tr tc : Int) (l : List (Int × Int)) 
         | .error _ => none)) :=
   tileIndexEnum_uses_expr R C tr tc l h
 
+/-! ## Seventh description: the per-frame plane positions; the inverse maps -/
+
+/-- **`five_descriptions_agree`** (per-frame data ↔ the wrapper `compute_plane_position_slide_per_frame`).  The element built per
+frame is REGENERATED (`Gen.slidePerFrameItem`, T7j; the comprehension — one element per item, in order, unconditionally — is pinned):
+the wrapper's list is the per-frame data of `iter_tiled_full_frame_data` with channel and focal plane index dropped, frame by
+frame: same pixel matrix position, same physical position — in particular the z of ITS focal plane, for every channel. -/
+theorem slide_per_frame_is_per_frame_data (channels : List (Option Int)) (planes tr tc R C : Int) (g : Geo) (sbs : Rat)
+    (hr : 1 ≤ tr) (hc : 1 ≤ tc) (hR : 1 ≤ R) (hC : 1 ≤ C) :
+    slidePerFrame channels planes tr tc R C g sbs =
+      .ok ((channels.flatMap (fun ch => (iota planes).map (fun p => (ch, p + 1)))).flatMap (fun chp =>
+        (tpOf tr tc R C { g with oz := g.oz + ((chp.2 - 1 : Int) : Rat) * sbs }).map
+          (fun p => (p.1.1, p.1.2, p.2.1, p.2.2.1, p.2.2.2)))) := by
+  rw [slidePerFrame_eq channels planes tr tc R C g sbs _ (iterTiledFull_eq channels planes tr tc R C g sbs hr hc hR hC)]
+  simp only [List.map_flatMap, iterChunk, List.map_map]
+  rfl
+
+/-- **wrapper ↔ per-frame transformers**: the `n`-th plane position of the wrapper (0-based) is the point
+`_get_spatial_information(dataset, frame_number = n + 1)` hands to every `*Transformer.for_image(image, frame_number = n + 1)`,
+and its pixel matrix position is that of the `n`-th item of `iter_tiled_full_frame_data`. -/
+theorem slide_per_frame_agrees_with_frame_position (channels : List (Option Int)) (planes tr tc R C : Int) (g : Geo) (sbs : Rat)
+    (L : List (Int × Int × Rat × Rat × Rat)) (h : slidePerFrame channels planes tr tc R C g sbs = .ok L)
+    (n : Nat) (cp rp : Int) (x y z : Rat) (hn : L[n]? = some (cp, rp, x, y, z)) :
+    framePosition channels planes tr tc R C g sbs ((n : Int) + 1) = .ok (x, y, z) ∧
+    ∃ l ch p, iterTiledFull channels planes tr tc R C g sbs = .ok l ∧ l[n]? = some (ch, p, cp, rp, x, y, z) :=
+  slidePerFrame_framePosition channels planes tr tc R C g sbs L h n cp rp x y z hn
+
+/-- **Inverse of the frame numbering** (frame number → channel, focal plane, tile).  For every frame number `k = n + 1` of a
+TILED_FULL image with `channels × planes × ⌈R/tr⌉ × ⌈C/tc⌉` frames: the frame is tile column `n mod nc`, tile row
+`(n div nc) mod nr`, focal plane `(n div (nc·nr)) mod planes` of channel `n div (nc·nr·planes)` (an existing channel), and the
+position reported for it is the transform of that tile's offset in that plane.  Together with `frame_number_is_row_major` the
+numbering is a bijection between `1 .. N` and (channel, plane, tile row, tile column). -/
+theorem frame_number_inverse (channels : List (Option Int)) (planes tr tc R C : Int) (g : Geo) (sbs : Rat)
+    (hr : 1 ≤ tr) (hc : 1 ≤ tc) (hR : 1 ≤ R) (hC : 1 ≤ C) (hP : 1 ≤ planes) (n : Nat)
+    (hn : n < channels.length * planes.toNat * ((nTiles R tr).toNat * (nTiles C tc).toNat)) :
+    n / (nTiles C tc).toNat / (nTiles R tr).toNat / planes.toNat < channels.length ∧
+    framePosition channels planes tr tc R C g sbs ((n : Int) + 1) =
+      .ok (pixToRef { g with oz := g.oz + ((n / (nTiles C tc).toNat / (nTiles R tr).toNat % planes.toNat : Nat) : Rat) * sbs }
+        (((n % (nTiles C tc).toNat : Nat) : Int) * tc) (((n / (nTiles C tc).toNat % (nTiles R tr).toNat : Nat) : Int) * tr)) :=
+  framePosition_inverse channels planes tr tc R C g sbs hr hc hR hC hP n hn
+
+/-- **Inverse of tile → physical position.**  For a geometry whose row and column directions are not parallel and whose spacings
+are not zero, the pixel-to-reference map is injective on pixel indices … -/
+theorem position_determines_pixel (g : Geo) (hg : g.nondegenerate) (c r c' r' : Int) (h : pixToRef g c r = pixToRef g c' r') :
+    c = c' ∧ r = r' :=
+  pixToRef_injective g hg c r c' r' h
+
+/-- … hence within one focal plane two listed tiles at the same physical position are the same tile: position ↔ offset ↔ index
+are one-to-one (the pixel → tile index direction is `covering_tile`). -/
+theorem distinct_tiles_distinct_positions (tr tc R C : Int) (g : Geo) (hg : g.nondegenerate)
+    (x y : (Int × Int) × (Rat × Rat × Rat)) (hx : x ∈ tpOf tr tc R C g) (hy : y ∈ tpOf tr tc R C g) (h : x.2 = y.2) : x = y := by
+  have ex := tilePositions_transform tr tc R C g x hx
+  have ey := tilePositions_transform tr tc R C g y hy
+  rw [ex, ey] at h
+  obtain ⟨h1, h2⟩ := pixToRef_injective g hg _ _ _ _ h
+  obtain ⟨⟨a, b⟩, p⟩ := x
+  obtain ⟨⟨a', b'⟩, p'⟩ := y
+  simp only at h1 h2 ex ey
+  have ha : a = a' := by omega
+  have hb : b = b' := by omega
+  subst ha hb
+  rw [ex, ey]
+
+
 end HdVerif.C12
 
 /-! ## Non-vacuity -/
@@ -314,5 +378,16 @@ example : framePosition [some 1] 1 2 2 4 6 ⟨0, 0, 0, 1, 0, 0, 0, 1, 0, 1, 1⟩
 
 example : tileOffsetOf 1 2 2 3 = .ok (3, 4, 4, 5) ∧ tileIndexElt 2 1 = .ok (1, 2) ∧ focalPlaneRange 3 = .ok (1, 4) := by decide
 example : ∃ l, tileOffsets 2 3 5 4 = .ok l ∧ l.length = 6 := ⟨_, rfl, by decide⟩
+
+/-- the wrapper on two focal planes (spacing ½, origin z = 1): frames 0..5 plane 1, frames 6..11 plane 2 at z = 3/2 — the z of a frame
+of the second plane is not that of the first -/
+example : ∃ L, slidePerFrame [some 1] 2 2 3 5 4 ⟨0, 0, 1, 1, 0, 0, 0, 1, 0, 1, 1⟩ (1/2) = .ok L ∧ L.length = 12 := by
+  refine ⟨_, slide_per_frame_is_per_frame_data [some 1] 2 2 3 5 4 ⟨0, 0, 1, 1, 0, 0, 0, 1, 0, 1, 1⟩ (1/2) (by decide) (by decide) (by decide) (by decide), ?_⟩
+  decide
+/-- inverse numbering on the non-square grid 4 × 6 in 2 × 2 tiles (2 tile rows × 3 tile columns), 2 planes: frame 11 = n + 1 with n = 10 is
+channel 0, plane 1 (the second), tile row 1, tile column 1 -/
+example : (10 / 3 / 2 / 2 = 0) ∧ (10 / 3 / 2 % 2 = 1) ∧ (10 / 3 % 2 = 1) ∧ (10 % 3 = 1) := by decide
+example : (⟨0, 0, 0, 1, 0, 0, 0, 1, 0, 1, 1⟩ : Geo).nondegenerate := by
+  unfold Geo.nondegenerate; norm_num
 
 end HdVerif.Examples.C12
